@@ -106,8 +106,8 @@ pub fn gen(rng: &mut ChaCha20Rng, n: usize, thorough: bool) -> Vec<Case> {
             }
         }
     }
-    for v in [0u64, 1, 7] { out.push(mk(format!("C10 x-blindzero {}", v), &["ep:explore-Transaction::blind", if v == 0 { "src:finding-F20" } else { "src:fixed" }], true)); }
-    for n in [0usize, 1, 255, 256, 257] { out.push(mk(format!("C10 x-surj {}", n), &["ep:explore-Asset::blind", if n > 256 { "src:finding-F22" } else { "src:fixed" }], true)); }
+    for v in [0u64, 1, 7] { out.push(mk(format!("C10 x-blindzero {}", v), &["ep:explore-Transaction::blind", if v == 0 { "src:fixed-F20" } else { "src:fixed" }], true)); }
+    for n in [0usize, 1, 255, 256, 257] { out.push(mk(format!("C10 x-surj {}", n), &["ep:explore-Asset::blind", if n > 256 { "src:fixed-F22" } else { "src:fixed" }], true)); }
     out.push(mk("C10 x-rp64".into(), &["ep:explore-TxOut::unblind", "src:finding-F23"], true));
     for r in [0, 1] { out.push(mk(format!("C10 x-remove {}", r), &["ep:explore-Pset::remove_input", if r == 1 { "src:fixed-F24" } else { "src:fixed" }], true)); }
     for pat in ["empty", "null"] { out.push(mk(format!("C10 x-serde-taptree {}", pat), &["ep:explore-serde-TapTree", "src:fixed-F25"], true)); }
@@ -130,7 +130,7 @@ pub fn gen(rng: &mut ChaCha20Rng, n: usize, thorough: bool) -> Vec<Case> {
     {   // F21: an issuance of explicit amount 0, through the wire
         let mut i = TxIn::default(); i.previous_output = OutPoint::new(txid(7), 1); i.asset_issuance.amount = confidential::Value::Explicit(0); i.asset_issuance.inflation_keys = confidential::Value::Explicit(1);
         let tx = Transaction { version: 2, lock_time: LockTime::ZERO, input: vec![i], output: vec![TxOut::new_fee(1, asset(3))] };
-        out.push(mk(format!("C10 x-verify {}", hex(&serialize(&tx))), &["ep:explore-verify_tx_amt_proofs", "src:finding-F21"], true));
+        out.push(mk(format!("C10 x-verify {}", hex(&serialize(&tx))), &["ep:explore-verify_tx_amt_proofs", "src:fixed-F21"], true));
     }
     // ------------------------------------------------------------------ consensus decoders
     let repo = repo_hex_vectors();
